@@ -242,7 +242,7 @@ def build_case(rng, sigs, with_ignore, nfuncs=5, ncalls=40, nproc=1):
             for args, kwargs in forms_of(rng, f["sig"], v, n=rng.choice([1, 2, 3])):
                 steps.append(dict(f=fi, args=args, kwargs=kwargs, perm=rng.randrange(1 << 20), share=rng.random() < 0.5,
                                   how=rng.choice(["call", "call", "call", "shelve"]), check_before=rng.random() < 0.5,
-                                  holder=rng.choice(["h0", "h0", "h1"])))
+                                  holder=rng.choice(["h0", "h0", "h1"]), via_class=f["kind"] == "method" and rng.random() < 0.35))
     rng.shuffle(steps)
     # repeat some earlier steps later (hits), possibly in another process
     reps = [dict(s, perm=rng.randrange(1 << 20), check_before=True, share=not s.get("share")) for s in rng.sample(steps, min(len(steps), max(3, len(steps) // 3)))]
